@@ -26,9 +26,12 @@ TOLERANCES = {"exact paste / loader round trip": "1e-4 * max", "reference order<
 ASSUMPTIONS = ["template density vanishes outside the ball of radius (min(shape)-1)/2 - 2 around the box centre, so neither rotation nor a sub-pixel shift moves density out of the template-sized fragment box"]
 
 
-def make_template(seed, shape):
+def make_template(seed, shape, dense=False):
     shape = tuple(shape)
     a = gen.smooth_noise(seed, shape, sigma=0.8).astype(np.float64)
+    if dense:
+        # density up to the faces of the box: only for components whose molecules are all grid-coincident (exact paste)
+        return (a + 0.5).astype(np.float32)
     c = (np.asarray(shape) - 1) / 2
     g = np.meshgrid(*[np.arange(n) - ci for n, ci in zip(shape, c)], indexing="ij")
     r = np.sqrt(sum(x ** 2 for x in g))
@@ -65,7 +68,7 @@ def build(d):
     from acryo import Molecules
     comps = []
     for ci, comp in enumerate(d["components"]):
-        tmpl = make_template(comp["seed"], comp["shape"])
+        tmpl = make_template(comp["seed"], comp["shape"], dense=bool(comp.get("dense")))
         pos, rots = [], []
         for m in comp["mols"]:
             pos.append(m["pos_px"])
@@ -108,10 +111,13 @@ def judge(d):
     mx = max(float(np.abs(c[0]).max()) for c in comps)
     # (b) reference sum; positions as stored by Molecules (float32)
     ref = np.zeros(vol, dtype=np.float64)
-    for tmpl, pos, R in comps:
+    for ci, (tmpl, pos, R) in enumerate(comps):
         p32 = (pos * scale).astype(np.float32).astype(np.float64) / scale
         for i in range(len(pos)):
-            ref += reference(vol, tmpl, p32[i], R[i], order)
+            # grid-coincident molecules paste the template exactly (the float32 round trip of pos * scale / scale is 1e-6 px
+            # off the grid, which a constant-mode interpolation of a dense template would turn into an empty first plane)
+            grid = d["components"][ci]["mols"][i]["cls"] == "grid"
+            ref += reference(vol, tmpl, pos[i] if grid else p32[i], R[i], order)
     err = float(np.abs(tomo - ref).max())
     tol = (2e-2 if order == 3 else 2e-4 if order == 1 else None)
     if order == 0:
@@ -209,8 +215,8 @@ def judge(d):
 
 
 @st.composite
-def mol_pose(draw, shape, vol):
-    cls = draw(st.sampled_from(["grid", "grid", "frac", "rot", "straddle", "outside", "negative"]))
+def mol_pose(draw, shape, vol, only_grid=False):
+    cls = draw(st.sampled_from(["grid", "grid", "grid", "outside"] if only_grid else ["grid", "grid", "frac", "rot", "straddle", "outside", "negative"]))
     half = [(n - 1) / 2 for n in shape]
     pos, rot = [], {"cls": "identity", "rv": [0.0, 0.0, 0.0]}
     for a in range(3):
@@ -240,9 +246,10 @@ def cases(draw):
     comps = []
     for _ in range(ncomp):
         shape = draw(gen.box_shapes(7, 13))
-        mols = [draw(mol_pose(shape, vol)) for _ in range(draw(st.integers(1, 4)))]
-        comps.append({"shape": shape, "seed": draw(gen.seeds), "mols": mols})
-    return {"vol": vol, "components": comps, "order": draw(st.sampled_from([0, 1, 3, 3])), "scale": draw(st.one_of(gen.scales, st.sampled_from([0.2, 0.25, 0.3])))}
+        dense = draw(st.integers(0, 3)) == 0
+        mols = [draw(mol_pose(shape, vol, only_grid=dense)) for _ in range(draw(st.integers(1, 4)))]
+        comps.append({"shape": shape, "seed": draw(gen.seeds), "mols": mols, "dense": dense})
+    return {"vol": vol, "components": comps, "order": draw(st.sampled_from([0, 1, 3, 3])), "scale": draw(st.one_of(gen.scales, st.sampled_from([0.2, 0.25, 0.3, 1.3, 0.6, 2.7])))}
 
 
 def nontrivial(d):
